@@ -95,7 +95,7 @@ def _run_tasks(tasks, nproc, deadline):
         name = str(t[1][0]) + str(t[1][1])
         return 0 if ('_integrate' in name or 'should_record' in name or 'init_' in name or 'table_band' in name) else 1
     queue = sorted(tasks, key=prio)
-    running, out = [], []
+    running, out, retried = [], [], set()
     while queue or running:
         while queue and len(running) < nproc:
             kind, job = queue.pop(0)
@@ -115,10 +115,20 @@ def _run_tasks(tasks, nproc, deadline):
                     done = {'contract': name, 'instance': '', 'obligations': [], 'error': 'worker died without a result'}
             elif not pr.is_alive():
                 done = {'contract': name, 'instance': '', 'obligations': [], 'error': 'worker died without a result'}
+            elif time.time() - ts > deadline and (kind, job) not in retried:
+                # one retry in a fresh process: such hangs depend on timing (which obligations the parallel solver
+                # passes left open), not on the input
+                pr.kill()
+                pr.join(timeout=5)
+                pc.close()
+                running.remove(r)
+                retried.add((kind, job))
+                queue.insert(0, (kind, job))
+                continue
             elif time.time() - ts > deadline:
                 pr.kill()
                 done = {'contract': name, 'instance': '', 'obligations': [],
-                        'error': f'not finished within the hard per-function deadline of {deadline} s (a solver call '
+                        'error': f'not finished within the hard per-function deadline of {deadline} s, twice (a solver call '
                                  f'ignoring its timeout, or a proof lost on many paths); nothing is concluded for this '
                                  f'function from this run'}
             if done is not None:
@@ -158,7 +168,7 @@ def run_property(pid, tier, seed, jobs=None):
     results = list(bind_errors)
     if work or extras:
         results += _run_tasks([('contract', w) for w in work] + [('extra', e) for e in extras], nproc,
-                              deadline=600 if tier == "quick" else 3600)
+                              deadline=300 if tier == "quick" else 1800)
     return finish(pid, pmod, tier, seed, results, time.time() - t0)
 
 
